@@ -264,6 +264,9 @@ func (x *fnExec) ctx(st *State) *EvalCtx {
 			vars[name] = t
 		} else if c, ok := val.(*ssa.Const); ok {
 			vars[name] = x.constVal(c)
+		} else if _, ok := val.(*ssa.Phi); !ok {
+			// candidate from nextRef not computed yet: the variable still has its zero value
+			vars[name] = mkTerm(zeroOf(x.v.decls.sortOf(val.Type())), x.v.decls.sortOf(val.Type()), val.Type())
 		}
 	}
 	// free variables (captured by reference): name -> current content
@@ -1323,6 +1326,29 @@ func (x *fnExec) zeroInitStruct(st *State, ref string, t types.Type) {
 	}
 }
 
+// nextRef finds the value of the next (in block order) DebugRef of the same variable with a non-constant value.
+func (x *fnExec) nextRef(d *ssa.DebugRef) ssa.Value {
+	seen := false
+	for _, b := range x.fn.Blocks {
+		for _, in := range b.Instrs {
+			if in == ssa.Instruction(d) {
+				seen = true
+				continue
+			}
+			if !seen {
+				continue
+			}
+			if d2, ok := in.(*ssa.DebugRef); ok && d2.Object() == d.Object() && !d2.IsAddr {
+				if _, isConst := d2.X.(*ssa.Const); !isConst {
+					return d2.X
+				}
+				return nil
+			}
+		}
+	}
+	return nil
+}
+
 func (x *fnExec) debugRef(st *State, d *ssa.DebugRef) {
 	id, ok := d.Expr.(*ast.Ident)
 	if !ok {
@@ -1332,6 +1358,13 @@ func (x *fnExec) debugRef(st *State, d *ssa.DebugRef) {
 		return
 	}
 	st.env[id.Name] = d.X
+	// go/ssa reports the zero value at the declaration of `x := e`; the value of e is referred to by the next
+	// DebugRef of x. Remember that one as a better candidate.
+	if _, isConst := d.X.(*ssa.Const); isConst && d.Object().Pos() == id.Pos() {
+		if cand := x.nextRef(d); cand != nil {
+			st.env[id.Name] = cand
+		}
+	}
 	if d.IsAddr {
 		st.envAddr[id.Name] = true
 	} else {
